@@ -315,7 +315,6 @@ func sTransferFlag(c *Ctx, rule string) {
 	}
 }
 
-
 // settersUnconditional: a plain setter writes its fields on every path – a
 // guard such as "only if the index moves forward" silently drops the rollback
 // that callers rely on (appendEntries re-installing the committed
